@@ -193,3 +193,11 @@ Example toy_scalar_mul_add := C03_scalar_mul_add toy toy_group_laws.
 Example toy_scalar_of_group : scalar_laws toy := C03_scalar_of_group toy toy_group_laws.
 Example toy_3G_plus_5G : rmul toy 8 (G toy) = (A <- rmul toy 3 (G toy) ;; B <- rmul toy 36 (G toy) ;; padd toy A B).
 Proof. vm_compute. reflexivity. Qed.
+
+(* The constants written in the model are the constants of the SOURCE: coq/Generated/SrcConsts.v is regenerated
+   from /repo/buidl/*.py by harness/gen_coq_consts.py on every run; the statements are spelled out in
+   Proofs/ConstsTie.v (secp256k1_is_source_stmt). *)
+From V Require Proofs.ConstsTie.
+Theorem C03_constants_match_source : ConstsTie.secp256k1_is_source_stmt.
+Proof. exact ConstsTie.secp256k1_is_source. Qed.
+Print Assumptions C03_constants_match_source.
